@@ -132,6 +132,12 @@ structure MsgInfo where
 
 abbrev Validater := Option (Bytes → Option (Option Bytes))
 
+/-- `stun_agent_default_validater` over a NULL-terminated table of (username, password): the first entry whose
+    username has the SAME LENGTH and the same bytes as the message's USERNAME (`memcmp` after the length test);
+    no such entry = FALSE -/
+def defaultValidater (tab : List (Bytes × Option Bytes)) (uname : Bytes) : Option (Option Bytes) :=
+  (tab.find? (·.1 == uname)).map (·.2)
+
 /-- `stun_agent_check_fingerprint` -/
 def checkFingerprint (ag : Agent) (buf : Bytes) : M Bool :=
   let a := some ag.cfg
